@@ -156,7 +156,7 @@ def racing_directory(registry_root):
     return asset.Directory(Racing(registry_root))
 
 
-def step(registry_root, op, generation):
+def step(registry_root, op, generation, window='none'):
     """One lifecycle action with everything rebuilt (instance, project components, expansion). Returns observation."""
     from forml.io import asset
     from forml.provider.runner import pyfunc
@@ -174,7 +174,8 @@ def step(registry_root, op, generation):
         values.append(answer['args'][1] if answer['tag'] == 'app' and answer['id'] == SINK else answer)
     else:
         runner = rec_runner(values)(instance, feed, sink)
-        getattr(runner, {'train': 'train', 'apply': 'apply', 'perftrack': 'eval_perftrack'}[op])()
+        bounds = {'none': (), 'upper': (None, 3), 'both': (1, 3)}[window if op == 'train' else 'none']
+        getattr(runner, {'train': 'train', 'apply': 'apply', 'perftrack': 'eval_perftrack'}[op])(*bounds)
     obs = {'values': values}
     if op == 'train':
         release = fresh_directory(registry_root).get(PROJECT).get(RELEASE)
@@ -191,7 +192,7 @@ def main():
     import logging
     logging.disable(logging.ERROR)
     try:
-        obs = step(spec['registry'], spec['op'], spec['g'])
+        obs = step(spec['registry'], spec['op'], spec['g'], spec.get('w', 'none'))
     except Exception as exc:  # pylint: disable=broad-except
         import traceback
         obs = {'error': f'{type(exc).__name__}: {exc}', 'trace': traceback.format_exc()[-1500:]}
